@@ -184,7 +184,9 @@ def generate(rng, tier):
     if rng.random() < 0.06:
         w["dirmodes"] = {"out": 0o555}
     cwd = w["cwd"]
-    tpath = "$W/out/" + target_name if rng.random() < 0.5 else os.path.relpath("out/" + target_name, cwd)
+    c = rng.random()
+    # how the caller spells the target: absolute, relative to the cwd, through '~' (HOME is $W/home), as a file:// URL
+    tpath = "$W/out/" + target_name if c < 0.4 else os.path.relpath("out/" + target_name, cwd) if c < 0.75 else "~/../out/" + target_name if c < 0.88 else "file://$W/out/" + target_name
     save = {
         "path": tpath,
         "multifile": rng.random() < 0.6,
@@ -194,6 +196,7 @@ def generate(rng, tier):
         "skip_validation": rng.random() < 0.12,
         "target": "out/" + target_name,
         "pre": pre,
+        "as": rng.choice(["str", "str", "str", "pathlib", "Path_fc"]),
     }
     load = {"method": rng.choice(["path", "path", "args"]), "extra": rng.choice([[], ["--a=5"], ["--s=vz"]])}
     spc = []
@@ -333,7 +336,18 @@ def save_and_judge(sc, root, faults):
     cwd0 = os.getcwd()
     cfg_before = json.dumps(canon_cfg(p, cfg, sim))
     sim.begin_op(1, "save")
-    o = run_op(lambda: p.save(cfg, sv["path"], format=sv["format"], skip_none=sv["skip_none"], skip_validation=sv["skip_validation"], overwrite=sv["overwrite"], multifile=sv["multifile"]))
+    target = sv["path"]
+    if sv.get("as") == "pathlib" and not target.startswith(("~", "file:")):
+        import pathlib
+
+        target = pathlib.Path(target)
+    elif sv.get("as") == "Path_fc" and not target.startswith("file:"):
+        from jsonargparse import Path as _P
+
+        o0 = run_op(lambda: _P(sv["path"], "fc"))
+        if o0.kind == "ret":
+            target = o0.value
+    o = run_op(lambda: p.save(cfg, target, format=sv["format"], skip_none=sv["skip_none"], skip_validation=sv["skip_validation"], overwrite=sv["overwrite"], multifile=sv["multifile"]))
     kinds = list(sim.op_kinds)
     sim.end_op()
     with rt.suspended():
